@@ -27,6 +27,16 @@ use crate::error::Error;
 use super::{ExprType, FlagsState, GeneratorState};
 
 impl<'a> GeneratorState<'a> {
+    // Look up a name that comes straight from the source text: it may also be X, Y or a
+    // function (possibly only declared), none of which is in the variable table
+    fn checked_variable(&self, name: &str, pos: usize) -> Result<&'a Variable, Error> {
+        let cs: &'a CompilerState = self.compiler_state;
+        match cs.variables.get(name) {
+            Some(v) => Ok(v),
+            None => Err(cs.syntax_error(&format!("{} can't be used as a variable here", name), pos)),
+        }
+    }
+
     fn purge_deferred_plusplus_and_savey(&mut self) -> Result<(), Error> {
         let def = self.deferred_plusplus.clone();
         self.deferred_plusplus.clear();
@@ -339,7 +349,7 @@ impl<'a> GeneratorState<'a> {
     fn generate_deref(&mut self, expr: &Expr, pos: usize) -> Result<ExprType, Error> {
         match expr {
             Expr::Identifier(var, sub) => {
-                let v = self.compiler_state.get_variable(var);
+                let v = self.checked_variable(var, pos)?;
                 if v.var_type == VariableType::CharPtr {
                     let sub_output = self.generate_expr(sub, pos, false, false)?;
                     match sub_output {
@@ -386,7 +396,7 @@ impl<'a> GeneratorState<'a> {
     fn generate_addr(&mut self, expr: &Expr, pos: usize) -> Result<ExprType, Error> {
         match expr {
             Expr::Identifier(var, sub) => {
-                let v = self.compiler_state.get_variable(var);
+                let v = self.checked_variable(var, pos)?;
                 if v.var_type == VariableType::Char {
                     let sub_output = self.generate_expr(sub, pos, false, false)?;
                     match sub_output {
@@ -424,7 +434,7 @@ impl<'a> GeneratorState<'a> {
             }
             Expr::Identifier(var, _) if var == "X" || var == "Y" => Ok(ExprType::Immediate(1)),
             Expr::Identifier(var, _) => {
-                let v = self.compiler_state.get_variable(var);
+                let v = self.checked_variable(var, pos)?;
                 match v.var_type {
                     VariableType::CharPtr => {
                         if v.var_const {
@@ -507,7 +517,7 @@ impl<'a> GeneratorState<'a> {
                             if let Expr::Integer(8) = *rhs2 {
                                 if let Expr::Identifier(var, sub) = *lhs2 {
                                     if let Expr::Nothing = *sub {
-                                        let v = self.compiler_state.get_variable(var.as_str());
+                                        let v = self.checked_variable(var.as_str(), pos)?;
                                         if v.var_type == VariableType::CharPtr && v.var_const {
                                             if self.acc_in_use {
                                                 self.sasm(PHA)?;
@@ -556,7 +566,7 @@ impl<'a> GeneratorState<'a> {
                             if let Expr::Integer(8) = *rhs2 {
                                 if let Expr::Identifier(var, sub) = *lhs2 {
                                     if let Expr::Nothing = *sub {
-                                        let v = self.compiler_state.get_variable(var.as_str());
+                                        let v = self.checked_variable(var.as_str(), pos)?;
                                         if v.var_type == VariableType::CharPtr && v.var_const {
                                             if self.acc_in_use {
                                                 self.sasm(PHA)?;
@@ -713,7 +723,7 @@ impl<'a> GeneratorState<'a> {
                     }
                 }
                 variable => {
-                    let v = self.compiler_state.get_variable(variable);
+                    let v = self.checked_variable(variable, pos)?;
                     let dummy = if let Expr::Nothing = **sub {
                         None
                     } else {
@@ -1076,7 +1086,7 @@ impl<'a> GeneratorState<'a> {
     fn generate_strobe_statement(&mut self, expr: &Expr, pos: usize) -> Result<(), Error> {
         match expr {
             Expr::Identifier(name, _) => {
-                let v = self.compiler_state.get_variable(name);
+                let v = self.checked_variable(name, pos)?;
                 match v.var_type {
                     VariableType::CharPtr => {
                         // Like load/store: an explicit access the optimizer must keep
